@@ -75,6 +75,7 @@ type world struct {
 	ethHeight  uint64
 	wiped      int
 	lastTry    *tryInfo
+	grantBefore map[[2]int]bool // fee allowances (granter, grantee) on the state before the current step
 }
 
 type tryInfo struct {
@@ -333,6 +334,8 @@ func classify(err error, panicked bool, sale bool) int64 {
 	switch {
 	case errors.Is(err, errInjected) || strings.Contains(msg, errInjected.Error()):
 		return 18
+	case strings.Contains(msg, "no signature from granted address found"):
+		return 10
 	case errors.Is(err, palomatypes.ErrInvalidParameters):
 		return 2
 	case errors.Is(err, palomatypes.ErrLicenseExists):
@@ -387,6 +390,7 @@ type op struct {
 	fault    int    // the fault-th collaborator call of the operation fails (0: none)
 	fpanic   bool   // ... by panic (otherwise by error where the method can return one)
 	route    string // Sale: "" = processAttestation hook, "try" = TryAttestation under recover (as the end blocker)
+	msgs     []txmsg // Tx: a whole transaction through the real decorator
 }
 
 func (o op) atomicKind() bool { return o.kind == "AddLicence" || o.kind == "Register" || o.kind == "Sale" }
@@ -398,8 +402,41 @@ func (o op) kd() string {
 	return "FErr"
 }
 
-// coq: the extended operation (LightNodeExt.xop)
+// a message of a transaction
+type txmsg struct {
+	kind    string // AddLicence | Register | Auth | Status
+	a, b    key    // a: metadata.creator as written
+	d       int
+	amt     *big.Int
+	months  uint32
+	signers []int // metadata.signers: the signatures the transaction carries for this message
+}
+
+func (m txmsg) coq() string {
+	body := ""
+	o := op{kind: m.kind, a: m.a, b: m.b, d: m.d, amt: m.amt, months: m.months}
+	if m.kind == "Status" {
+		body = fmt.Sprintf("(TStatus %s)", keyT(m.a))
+	} else {
+		body = fmt.Sprintf("(TOp %s)", o.plain())
+	}
+	return fmt.Sprintf("{| tm_signers := %s; tm_body := %s |}", zl(m.signers), body)
+}
+
+// coq: the history operation (LightNodeExt.hop)
 func (o op) coq() string {
+	if o.kind == "Tx" {
+		ms := make([]string, len(o.msgs))
+		for i, m := range o.msgs {
+			ms[i] = m.coq()
+		}
+		return fmt.Sprintf("(HTx %s)", emit.List(ms))
+	}
+	return fmt.Sprintf("(HX %s)", o.xcoq())
+}
+
+// xcoq: the extended operation (LightNodeExt.xop)
+func (o op) xcoq() string {
 	switch o.kind {
 	case "SetLegacy":
 		return fmt.Sprintf("(XSetLegacy %d %s)", o.fault, o.kd())
@@ -520,6 +557,54 @@ func (w *world) apply(o op) int64 {
 				_, err := e.msg.RegisterLightNodeClient(ctx, &palomatypes.MsgRegisterLightNodeClient{Metadata: md(w.str(o.a))})
 				return err
 			})
+		})
+		return classify(err, p, false)
+	case "Tx":
+		// a whole transaction: the REAL signature-authorisation decorator on the state before it, then the
+		// messages through the real msg server on one branch, written back only if all of them succeed
+		sdkMsgs := make([]sdk.Msg, len(o.msgs))
+		for i, m := range o.msgs {
+			sg := make([]string, len(m.signers))
+			for j, x := range m.signers {
+				sg[j] = w.addrs[x].String()
+			}
+			meta := valsettypes.MsgMetadata{Creator: w.str(m.a), Signers: sg}
+			switch m.kind {
+			case "AddLicence":
+				sdkMsgs[i] = &palomatypes.MsgAddLightNodeClientLicense{Metadata: meta, ClientAddress: w.str(m.b),
+					Amount: sdk.Coin{Denom: denomStr(m.d), Amount: sdkmath.NewIntFromBigInt(m.amt)}, VestingMonths: m.months}
+			case "Register":
+				sdkMsgs[i] = &palomatypes.MsgRegisterLightNodeClient{Metadata: meta}
+			case "Auth":
+				sdkMsgs[i] = &palomatypes.MsgAuthLightNodeClient{Metadata: meta}
+			case "Status":
+				sdkMsgs[i] = &palomatypes.MsgAddStatusUpdate{Metadata: meta, Status: "ok", Level: palomatypes.MsgAddStatusUpdate_LEVEL_INFO}
+			default:
+				panic("tx message kind " + m.kind)
+			}
+		}
+		err, p := e.deliver(func(ctx context.Context) error {
+			sctx := sdk.UnwrapSDKContext(ctx)
+			if _, err := e.dec.AnteHandle(sctx, fakeTx{sdkMsgs}, false, func(c sdk.Context, _ sdk.Tx, _ bool) (sdk.Context, error) { return c, nil }); err != nil {
+				return err
+			}
+			for _, m := range sdkMsgs {
+				var err error
+				switch x := m.(type) {
+				case *palomatypes.MsgAddLightNodeClientLicense:
+					_, err = e.msg.AddLightNodeClientLicense(ctx, x)
+				case *palomatypes.MsgRegisterLightNodeClient:
+					_, err = e.msg.RegisterLightNodeClient(ctx, x)
+				case *palomatypes.MsgAuthLightNodeClient:
+					_, err = e.msg.AuthLightNodeClient(ctx, x)
+				case *palomatypes.MsgAddStatusUpdate:
+					_, err = e.msg.AddStatusUpdate(ctx, x)
+				}
+				if err != nil {
+					return err
+				}
+			}
+			return nil
 		})
 		return classify(err, p, false)
 	case "SetLegacy":
@@ -718,6 +803,48 @@ type gen struct {
 	everContract map[int]int
 }
 
+// genTx: a transaction of 1-3 metadata-carrying messages signed by one account X (sometimes two):
+// X's own status update, activations / authentications of licensed (or other) addresses, licence
+// purchases; the signers written into a message are mostly [X], sometimes the creator itself
+func (g *gen) genTx() op {
+	r := g.r
+	x := g.fundedID()
+	n := 1 + r.Intn(3)
+	o := op{kind: "Tx"}
+	for i := 0; i < n; i++ {
+		m := txmsg{signers: []int{x}}
+		switch k := r.Intn(10); {
+		case k < 3 || (i == 0 && k < 6):
+			m.kind, m.a = "Status", key{x, false}
+			if r.Intn(6) == 0 {
+				m.a = key{g.anyID(), r.Intn(8) == 0}
+			}
+		case k < 7:
+			m.kind, m.a = "Register", g.licKey()
+		case k < 8:
+			m.kind, m.a = "Auth", g.licKey()
+		default:
+			m.kind, m.a, m.b, m.d, m.amt, m.months = "AddLicence", key{x, false}, g.clientKey(), 0, genAmount(r, g.hostile), monthsPool[r.Intn(len(monthsPool))]
+			if r.Intn(5) == 0 {
+				m.a = key{g.fundedID(), false}
+			}
+		}
+		switch r.Intn(8) {
+		case 0:
+			if m.a.id > 0 {
+				m.signers = []int{m.a.id} // the creator signs this message itself
+			}
+		case 1:
+			m.signers = append(m.signers, g.anyID())
+		}
+		if g.hostile && r.Intn(12) == 0 {
+			m.a.id = -1
+		}
+		o.msgs = append(o.msgs, m)
+	}
+	return o
+}
+
 // genContracts: a new set of authorised sale contracts: any subset of the chains, sometimes the
 // same chain twice (last entry wins), mostly the usual contract
 func (g *gen) genContracts() op {
@@ -859,6 +986,8 @@ func (g *gen) next() op {
 			o.a.id = g.w.feegranter // a grant by the light-node fee granter: a "legacy" client
 		}
 		return o
+	case x < 84 && r.Intn(2) == 0:
+		return g.genTx()
 	case x < 84:
 		if r.Intn(3) == 0 {
 			return op{kind: "Genesis"}
@@ -875,6 +1004,8 @@ func (g *gen) next() op {
 		return op{kind: "SetFunders", list: l}
 	case x < 93:
 		return g.genContracts()
+	case x < 97:
+		return g.genTx()
 	default:
 		dts := []int64{1, 59, 3600, 86400 * 30, 86400 * 31, 86400 * 200, 86400 * 365, 86400 * 731}
 		return op{kind: "Tick", dt: dts[r.Intn(len(dts))] + int64(r.Intn(3))}
@@ -1002,6 +1133,16 @@ func runHistory(run *emit.Run, idx int, hostile bool, script *scripted) {
 			preLic, _ = e.paloma.GetLightNodeClientLicense(e.ctx, w.str(o.a))
 		}
 		now := e.ctx.BlockTime()
+		if o.kind == "Tx" {
+			w.grantBefore = map[[2]int]bool{}
+			for g0 := 0; g0 <= nAddr; g0++ {
+				for r0 := 0; r0 <= nAddr; r0++ {
+					if al, _ := e.feegrant.GetAllowance(e.ctx, w.addrs[g0], w.addrs[r0]); al != nil {
+						w.grantBefore[[2]int{g0, r0}] = true
+					}
+				}
+			}
+		}
 		class := w.apply(o)
 		cur := w.observe()
 		run.Count("op", o.kind)
@@ -1259,6 +1400,27 @@ func (w *world) oracleExt(run *emit.Run, o op, class int64, pr *probe, prev, cur
 	if fs, err := w.e.paloma.LightNodeClientFunders(w.e.ctx); (err == nil) != (w.hasFunders && len(w.funders) > 0) {
 		run.Violate("C18:funders-not-as-configured", fmt.Sprintf("governance set funders %v, the keeper reports %v (err %v) after %s", w.funders, fs, err, o.kind), replay)
 	}
+	if o.kind == "Tx" && class == 0 {
+		for _, m := range o.msgs {
+			if m.kind != "Register" {
+				continue
+			}
+			id := m.a.id
+			w.activated[id]++
+			if w.activated[id] > 1 {
+				run.Violate("C18:activated-twice", fmt.Sprintf("address %d", id), replay)
+			}
+			ok := false
+			for _, x := range m.signers {
+				if x == id || w.grantBefore[[2]int{id, x}] {
+					ok = true
+				}
+			}
+			if !ok {
+				run.Violate("C18:activated-by-stranger", fmt.Sprintf("the licence of address %d was activated by a transaction signed by %v: not the licensee, no fee allowance from it", id, m.signers), replay)
+			}
+		}
+	}
 	if o.kind == "Genesis" && !cur.eq(prev) {
 		run.Violate("C18:genesis-round-trip-changed-state", "ExportGenesis + InitGenesis on a wiped x/paloma store changed the projection", replay)
 	}
@@ -1329,7 +1491,7 @@ func bulkHistory(run *emit.Run, idx int) {
 	cur := seg{}
 	do := func(o op) int64 {
 		c := w.apply(o)
-		cur.ops = append(cur.ops, o.coq())
+		cur.ops = append(cur.ops, o.xcoq())
 		cur.outs = append(cur.outs, zi(c))
 		replaySteps = append(replaySteps, stepRec{o.coq(), c})
 		run.Count("op", "bulk "+o.kind)
@@ -1549,7 +1711,11 @@ func TestCorr(t *testing.T) {
 		"get a fault at one of the calls measured on a fault-free run (or at the one after the last), by error or by panic; "+
 		"every such operation is also run RAW (no message branch / no attestation cache) on a throw-away branch and the "+
 		"leftovers are compared with the model's raw function; sales go half through processAttestation, half through "+
-		"TryAttestation under recover; MsgSetLegacyLightNodeClients and ExportGenesis/wipe/InitGenesis are history operations.")
+		"TryAttestation under recover; MsgSetLegacyLightNodeClients and ExportGenesis/wipe/InitGenesis are history operations. "+
+		"Rounds 3-5: one campaign with more than a hundred licences pending at once through every reader and a restart; contract "+
+		"ids are spellings (near misses, parked entries); 5% of the operations are whole transactions of 1-3 metadata-carrying "+
+		"messages (status update, activation, authentication, purchase; creators and signers drawn independently) through the REAL "+
+		"signature-authorisation decorator and msg server on one branch.")
 	nFn := run.N / 8
 	nHist := run.N - 2*nFn
 	replayCorpus(run)
